@@ -447,8 +447,7 @@ func confirmNatively(ps *PropSpec, h HarnessSpec, path string, v *sym.Violation)
 
 // runFindingReplay runs a native Go test that demonstrates a listed finding against the real code.
 func runFindingReplay(prop string, h HarnessSpec, fr FindingReplay) (bool, string) {
-	h2 := h
-	h2.Files = nil
+	h2 := h // harness files stay available to the demonstration (model types, helpers)
 	out, err := nativeTest(prop, h2, map[string]string{filepath.Join(sym.RepoDir, h.PkgDir, "zz_verif_finding_test.go"): filepath.Join(verifDir, "harness", prop, fr.File)}, "^"+fr.Test+"$", "")
 	if err != nil {
 		return false, "finding demonstration failed to run: " + err.Error()
